@@ -719,6 +719,14 @@ class Engine:
         if fr.fn is not self.current_fn and key not in cur.loops:
             return None
         sp = cur.loops.get(key)
+        if sp is None and fr.fn is self.current_fn:
+            # the loop header was edited: a declared loop with the same target (`for x in ...`) / the only declared
+            # `while` keeps its invariant, so that the changed loop is still checked against it
+            head = key.split(" in ")[0] + " in " if not isinstance(node, ast.While) else "while "
+            cands = [k for k in cur.loops if k.startswith(head) and k not in self.current_report.loops_used]
+            if len(cands) == 1:
+                key = cands[0]
+                sp = cur.loops[key]
         if sp is not None:
             self.current_report.loops_used.add(key)
         return sp
